@@ -43,6 +43,13 @@
 //! * `Cms { content_type, content, certs, crls, sid, attrs, signature, opts }`
 //!   and `Cms::encode()`; `Cms::standard(..)` assembles + signs a correct
 //!   object with pool key `key_idx`.
+//! * BER form of the eContent (for decoders in relaxed mode; RFC 6488 asks
+//!   for DER, so nobody has to accept these): `Cms::encode_segmented(lens,
+//!   indefinite)` writes the eContent OCTET STRING in constructed form
+//!   (`24 len { 04 .. }*` or `24 80 { 04 .. }* 00 00`), cut as
+//!   `split_segments(content, lens)` says (a length of 0 = empty segment, the
+//!   remainder goes into a last segment); `octets_constructed(segments,
+//!   indefinite)`; `Cms::encode_with_econtent(tlv)` takes any ready-made value.
 //! * `cms_parse(bytes) -> CmsView` (lenient parser based) and
 //!   `CmsView::verify()` — the harness' own verifier: digest attribute ==
 //!   SHA-256(eContent), content-type attribute == eContentType, signature over
@@ -212,6 +219,40 @@ pub fn oid_content(arcs: &[u64]) -> Vec<u8> {
 
 pub fn octets(b: &[u8]) -> Vec<u8> {
     tlv(0x04, b)
+}
+
+/// Cuts `content` into the segments of a BER constructed OCTET STRING: one
+/// segment per entry of `lens` holding that many octets (0 = a segment
+/// without data; an entry larger than what is left takes what is left), and
+/// whatever remains after the last entry in one more segment. No entries: a
+/// single segment with everything. The concatenation of the segments is
+/// always `content`.
+pub fn split_segments(content: &[u8], lens: &[u16]) -> Vec<Vec<u8>> {
+    let mut out = Vec::with_capacity(lens.len() + 1);
+    let mut pos = 0;
+    for &l in lens {
+        let n = (l as usize).min(content.len() - pos);
+        out.push(content[pos..pos + n].to_vec());
+        pos += n;
+    }
+    if pos < content.len() || out.is_empty() {
+        out.push(content[pos..].to_vec());
+    }
+    out
+}
+
+/// OCTET STRING in BER constructed form: every segment as a primitive
+/// OCTET STRING inside `24 len` (or `24 80 .. 00 00` if `indefinite`).
+pub fn octets_constructed(segments: &[Vec<u8>], indefinite: bool) -> Vec<u8> {
+    let inner: Vec<Vec<u8>> = segments.iter().map(|s| octets(s)).collect();
+    if indefinite {
+        let mut v = vec![0x24, 0x80];
+        v.extend_from_slice(&cat(&inner));
+        v.extend_from_slice(&[0, 0]);
+        v
+    } else {
+        tlv(0x24, &cat(&inner))
+    }
 }
 
 /// BIT STRING with `unused` (0..=7) unused bits in the last octet. The caller
@@ -765,10 +806,22 @@ impl Cms {
     }
 
     pub fn encode(&self) -> Vec<u8> {
+        self.encode_with_econtent(&octets(&self.content))
+    }
+
+    /// The object with the eContent OCTET STRING in BER constructed form,
+    /// `content` cut as `split_segments(content, lens)` says. Everything else
+    /// is written as `encode` writes it.
+    pub fn encode_segmented(&self, lens: &[u16], indefinite: bool) -> Vec<u8> {
+        self.encode_with_econtent(&octets_constructed(&split_segments(&self.content, lens), indefinite))
+    }
+
+    /// The object with `econtent` (a complete TLV) inside `eContent [0]`.
+    pub fn encode_with_econtent(&self, econtent: &[u8]) -> Vec<u8> {
         let mut sd = vec![
             int_u64(3),
             set_of(&[alg_id(oids::SHA256, self.opts.digest_set_null)]),
-            seq(&[oid(&self.content_type), ctx_cons(0, &octets(&self.content))]),
+            seq(&[oid(&self.content_type), ctx_cons(0, econtent)]),
         ];
         if !self.certs.is_empty() {
             let mut c = self.certs.clone();
@@ -1390,6 +1443,20 @@ pub fn selfcheck() -> Result<(), String> {
     let n = parse_exact(&odd).map_err(|e| e.0)?;
     if n.encode() != [0x30, 3, 0x04, 1, 0xAA] {
         return Err("lenient parse".into());
+    }
+    // BER segmentation of an OCTET STRING
+    let segs = split_segments(b"abcdef", &[2, 0, 9, 0]);
+    if segs != [b"ab".to_vec(), vec![], b"cdef".to_vec(), vec![]]
+        || split_segments(b"abc", &[]) != [b"abc".to_vec()]
+        || split_segments(b"abc", &[1]) != [b"a".to_vec(), b"bc".to_vec()]
+        || split_segments(b"", &[]) != [Vec::<u8>::new()]
+    {
+        return Err("split_segments".into());
+    }
+    if octets_constructed(&segs, false) != [0x24, 14, 4, 2, b'a', b'b', 4, 0, 4, 4, b'c', b'd', b'e', b'f', 4, 0]
+        || octets_constructed(&segs[..2], true) != [0x24, 0x80, 4, 2, b'a', b'b', 4, 0, 0, 0]
+    {
+        return Err("octets_constructed".into());
     }
     Ok(())
 }
